@@ -318,6 +318,9 @@ func genMerges(menuName string, b mergeBounds, emit func(enum.MergeCase)) {
 		var level1 []st
 		seen := map[string]bool{}
 		for l := 1; l <= b.maxLen1; l++ {
+			if l >= 3 && len(b.modes) > 2 && mode != b.modes[0] && mode != b.modes[len(b.modes)-1] {
+				continue // triples: first and last chunk mode only (lists <= 2 run in every mode)
+			}
 			enum.Product(l, len(menu), func(list []int) {
 				if !inSub(list) {
 					{
@@ -475,7 +478,7 @@ func init() {
 			Assumptions: append([]string{"deletion bitmaps only contain existing document numbers; output paths do not exist before Merge", "state-key deduplication merges states that differ only in the byte order of independent sections (Go map order), which no reader or merger consults"}, batchAssumptions...),
 			Bounds: map[string]string{
 				"quick":    "depth 1: all lists of length <=2 over 10 items (3 provenance patterns) + triples over {M1,M3,M9} (alternating provenance), every drop vector, chunk modes {1,1026}; depth 2: every distinct state reached by a single-input merge or by a pair over {M1,M3,M9}, merged alone and with M9 on either side (chunk mode 1), reduced drop alphabet",
-				"thorough": "depth 1: all lists of length <=3 over 10 items, every drop vector, chunk modes {1,2,1024,1026}; depth 2 with all 10 items; depth 3 for distinct depth-2 single-input states",
+				"thorough": "depth 1: all lists of length <=2 over 10 items in chunk modes {1,2,1024,1026} and all triples in modes {1,1026}, every drop vector; depth 2 with all 10 items; depth 3 for distinct depth-2 single-input states",
 			},
 			New: func() interface{} { return &enum.MergeCase{} },
 			Gen: func(tier string, emit func(interface{})) {
